@@ -36,7 +36,7 @@ theorem C01_request_exact (max : Nat) (old : List UInt8) (h : List (List UInt8 Ã
 theorem C01_fresh_id (s : State) (c size : Nat) (h : String) (hi : s.inited = true) (hr : s.resv = none) :
     (applyOp s (.invoke c size h)).resv = some { k := s.nextK, caller := c } âˆ§
     (applyOp s (.invoke c size h)).nextK = s.nextK + 1 := by
-  simp [applyOp, hi, hr]
+  simp [applyOp, startServerInit, hi, hr]
 
 /-- **To the caller of that invocation and to nobody else.** A body is written only by `sendReply`,
     and `sendReply` writes to the writer attached to the reservation whose id it was given: every
